@@ -13,7 +13,7 @@ INCS   := -I$(CFG) -I$(REPO)/include -I$(REPO)/src/lib -I$(REPO)/src/lib/include
 DEFS   := -DHAVE_CONFIG_H=1 -DCARES_BUILDING_LIBRARY -DCARES_STATICLIB -D_GNU_SOURCE \
           -D_POSIX_C_SOURCE=200809L -D_XOPEN_SOURCE=700 -DCARES_VERIF_HOOKS
 COMMON := -g -fno-omit-frame-pointer -fno-optimize-sibling-calls
-ASANF  := -O1 $(COMMON) -fsanitize=address,undefined -fno-sanitize-recover=undefined
+ASANF  := -O1 $(COMMON) -fsanitize=address,undefined -fno-sanitize-recover=undefined -ftrivial-auto-var-init=pattern
 TSANF  := -O1 $(COMMON) -fsanitize=thread
 PLAINF := -O2 $(COMMON)
 
@@ -21,7 +21,7 @@ HSRC   := $(VDIR)/harness
 
 define flavour
 $(1)_OBJS := $$(patsubst $(REPO)/src/lib/%.c,$(B)/$(1)/lib/%.o,$(SRCS))
-$(B)/$(1)/lib/%.o: $(REPO)/src/lib/%.c $(CFG)/ares_config.h
+$(B)/$(1)/lib/%.o: $(REPO)/src/lib/%.c $(CFG)/ares_config.h $(VDIR)/Makefile
 	@mkdir -p $$(dir $$@)
 	@$(CC) $(2) $(DEFS) $(INCS) -MMD -MP -c $$< -o $$@
 $(B)/$(1)/libcares.a: $$($(1)_OBJS)
